@@ -5,7 +5,7 @@ from .. import AnalysisError
 from ..report import Ob
 from ..cfg import calls_at, call_attr, is_self_attr, recv_text
 from ..state import Analysis, State, TOP
-from ..norm import Normalizer, FrameEnv
+from ..norm import Normalizer, FrameEnv, subst
 from .. import inventory as inv
 from .. import devices as dv
 from .c02 import give_contract, foreign_deleg_call, construct_and_initialize
@@ -355,7 +355,7 @@ def check(ctx):
                 l, r = test.left, test.comparators[0]
                 if isinstance(l, ast.Constant) and l.value is None:
                     l, r = r, l
-                if isinstance(r, ast.Constant) and r.value is None and ast.unparse(l) == f'{kp}.waiting_for_part_start_time':
+                if isinstance(r, ast.Constant) and r.value is None and ast.unparse(subst(l, FrameEnv(frame))) == f'{kp}.waiting_for_part_start_time':
                     if isinstance(test.ops[0], (ast.Eq, ast.Is)):
                         return True
                     if isinstance(test.ops[0], (ast.NotEq, ast.IsNot)):
